@@ -50,6 +50,7 @@ type grpSessScript struct {
 type grpClientScript struct {
 	C     string          `json:"c"`
 	Start string          `json:"start"` // pre | setup (after the first client's first Setup)
+	Pre   string          `json:"pre"`   // none | cancel | close: before the first Consume call
 	NSess int             `json:"nsess"` // Consume calls
 	Sess  []grpSessScript `json:"sess"`
 	LF    string          `json:"lf"` // answer to LeaveGroup
@@ -126,6 +127,7 @@ type grpSim struct {
 	store    map[int32]int64
 	clients  map[string]*grpClientState
 	simErrs  []string
+	expect   map[string]bool // clients started up front: the first join round waits for all of them
 }
 
 func newGrpSim(rec *vRec, sc *grpScenario) (*grpSim, error) {
@@ -137,8 +139,12 @@ func newGrpSim(rec *vRec, sc *grpScenario) (*grpSim, error) {
 			s.store[int32(p)] = off
 		}
 	}
+	s.expect = map[string]bool{}
 	for _, c := range sc.Clients {
 		s.clients[c.C] = &grpClientState{}
+		if c.Start == "pre" && c.NSess > 0 {
+			s.expect[c.C] = true
+		}
 	}
 	for i := 0; i < 2; i++ {
 		ln, err := net.Listen("tcp", "127.0.0.1:0")
@@ -401,6 +407,18 @@ func (s *grpSim) removeMember(mid string, why string) {
 func (s *grpSim) allJoined() bool {
 	if len(s.members) == 0 {
 		return false
+	}
+	if s.gen == 0 {
+		// the very first round is held for every client that was started up front
+		have := map[string]bool{}
+		for _, m := range s.members {
+			have[m.client] = true
+		}
+		for c := range s.expect {
+			if !have[c] {
+				return false
+			}
+		}
 	}
 	for _, m := range s.members {
 		if !m.joined {
@@ -729,6 +747,8 @@ func (s *grpSim) clientGone(cl string) {
 	s.mu.Lock()
 	defer s.mu.Unlock()
 	s.rec.Ev("gone", kv{"c": cl})
+	delete(s.expect, cl)
+	s.cond.Broadcast()
 	for id, m := range s.members {
 		if m.client == cl {
 			s.removeMember(id, "gone")
@@ -1021,6 +1041,16 @@ func (c *grpClient) drive() {
 		}
 	}
 	handler := grpHandler{c}
+	switch c.script.Pre {
+	case "cancel":
+		c.mu.Lock()
+		c.cancelled = true
+		c.mu.Unlock()
+		r.rec.Ev("cancel", kv{"c": c.name})
+		c.cancel()
+	case "close":
+		c.doClose()
+	}
 	for k := 0; k < c.script.NSess; k++ {
 		c.mu.Lock()
 		c.call = k
@@ -1039,7 +1069,17 @@ func (c *grpClient) drive() {
 		c.fire("pre", nil)
 		c.setStage("Consume")
 		r.rec.Ev("consume_call", kv{"c": c.name})
+		// safety net: a call that outlives its script (the real interleaving left the session without the planned
+		// ending cause) is ended by cancelling the context - itself a legitimate trigger, logged as such
+		net := time.AfterFunc(2500*time.Millisecond, func() {
+			c.mu.Lock()
+			c.cancelled = true
+			c.mu.Unlock()
+			r.rec.Ev("cancel", kv{"c": c.name})
+			c.cancel()
+		})
 		err := grpGuard(c, "Consume", func() error { return c.g.Consume(c.ctx, []string{grpTopic}, handler) })
+		net.Stop()
 		r.rec.Ev("consume_ret", kv{"c": c.name, "err": grpErrStr(err)})
 		c.setStage("between")
 		c.mu.Lock()
